@@ -7,7 +7,18 @@ import re
 import struct
 import zipfile
 
-BYTE_OPS = ["truncate", "truncate_tail", "bitflip", "byteset", "zero", "splice", "dup", "insert", "numbers", "head_only", "empty"]
+BYTE_OPS = ["truncate", "truncate_tail", "bitflip", "byteset", "zero", "splice", "dup", "insert", "numbers", "head_only", "empty",
+            "append_junk", "stamp_twice", "copy_block"]
+
+
+def _stamps(rng):
+    """Small self-contained blobs that scanners look for (the same picture pasted twice, signatures, markers)."""
+    import struct as _s
+    dib = _s.pack("<IiiHHIIiiII", 40, 2, 2, 1, 24, 0, 16, 2835, 2835, 0, 0) + bytes([1, 2, 3, 4, 5, 6, 0, 0, 7, 8, 9, 10, 11, 12, 0, 0])
+    from . import images
+    return [dib, images.png(2, 2, 7), images.jpeg(3, 3, 7), b"\x89PNG\r\n\x1a\n", b"\xff\xd8\xff\xe0", b"PK\x03\x04", b"%PDF-1.4", b"From a@b Mon Jan  1 00:00:00 2024\n",
+            b"\x0f\x00\xe8\x03\xff\xff\xff\x7f", b"Chapter 1 ", b"\x2f\x00\x06\x00\x01\x00\x01\x00\x01\x00"]
+
 ZIP_OPS = ["xml_truncate", "xml_unclose", "xml_numbers", "xml_entity", "xml_deep", "xml_garbage", "member_drop", "member_empty",
            "member_swap", "cd_forge", "xml_attr_drop", "xml_dup_children", "nonutf8"]
 TEXT_OPS = ["deep_braces", "deep_tags", "ctrl_numbers", "unbalanced", "long_line", "nul_bytes", "random_ctrl"]
@@ -27,6 +38,23 @@ def byte_mutate(data: bytes, op: str, rng: random.Random, other: bytes = b"") ->
         return data[: max(0, n - rng.choice([1, 2, 4, 8, 16, 22, 64, 512]))]
     if op == "head_only":
         return data[: rng.choice([1, 2, 4, 8, 16, 30, 64, 128, 512, 520])]
+    if op == "append_junk":
+        return data + bytes(rng.randrange(256) for _ in range(rng.choice([1, 3, 7, 64, 512]))) if rng.random() < 0.5 else data + bytes(rng.choice([1, 7, 511, 512]))
+    if op == "stamp_twice":
+        # overwrite two places with the same blob (sizes and offsets of everything else stay intact)
+        b = bytearray(data)
+        blob = rng.choice(_stamps(rng))
+        if n > 2 * len(blob) + 1600:
+            for _ in range(rng.choice([2, 2, 3])):
+                i = rng.randrange(1536, n - len(blob))
+                b[i:i + len(blob)] = blob
+        return bytes(b)
+    if op == "copy_block":
+        ln = rng.choice([4096, 16384, 65536])
+        i = rng.randrange(n)
+        blk = data[i:i + ln]
+        j = rng.randrange(n)
+        return data[:j] + blk + data[j:] if rng.random() < 0.5 else data + blk
     b = bytearray(data)
     if op == "bitflip":
         for _ in range(rng.choice([1, 1, 2, 4, 16, 64])):
